@@ -79,11 +79,11 @@ pub fn analyze(xml: &str) -> Result<Analysis, String> {
                 }
                 Event::Text(t) => {
                     let s = t.unescape().map_err(|e| format!("text does not unescape: {:?}", e))?;
-                    if depth == 0 && !s.trim().is_empty() {
+                    if depth == 0 && !xml_blank(&s) {
                         // a primitive serialized without a root is a document fragment; allowed only as the sole content
                         a.skeleton.push("toplevel-text".into());
                     }
-                    if !s.trim().is_empty() {
+                    if !xml_blank(&s) {
                         a.skeleton.push("T".into());
                     }
                     a.payloads.push(s.into_owned());
@@ -102,6 +102,11 @@ pub fn analyze(xml: &str) -> Result<Analysis, String> {
         Ok(a)
     })
     .map_err(|p| format!("panic while analysing: {}", p))?
+}
+
+/// blank in the XML sense (form feed, NEL, ... are characters)
+fn xml_blank(s: &str) -> bool {
+    s.chars().all(|c| matches!(c, ' ' | '\t' | '\r' | '\n'))
 }
 
 /// Harmless payload with the same shape: blanks stay, everything else becomes `a`.
@@ -347,7 +352,7 @@ fn judge(out: &Result<String, String>, twin: &Result<String, String>, payload: &
     }
 }
 
-const ALPHA: [&str; 13] = ["<", ">", "&", "'", "\"", "]", "-", "\0", "\n", " ", "a", "\u{e9}", "\u{20ac}"];
+const ALPHA: [&str; 14] = ["<", ">", "&", "'", "\"", "]", "-", "\0", "\n", " ", "a", "\u{e9}", "\u{20ac}", "\x0C"];
 
 /// Size thresholds of the escaping / chunking code: `filler^p . hostile . filler^q` in every payload
 /// position; p through every small size and around every power of two up to 2^13.
